@@ -1476,7 +1476,8 @@ impl<'h, A: Kind, B: Kind, C: Kind> Run<'h, A, B, C> {
                     for b in 0..n {
                         for c in 0..n {
                             let mid_bad = self.m.st[b as usize] == St::Dead || b == a;
-                            if n <= 3 || (mid_bad && a != c) {
+                            let last_bad = self.h.prop == Prop::C20 && self.m.st[c as usize] == St::Dead && a != b;
+                            if n <= 3 || (mid_bad && a != c) || last_bad {
                                 v.push(Op::Batch(vec![a, b, c]));
                             }
                         }
